@@ -58,6 +58,17 @@ MAX_REPORTED = 200          # unexplained mismatches kept verbatim per run (all 
 WITNESSES = 5                # explained mismatches kept per explanation (the shortest inputs)
 
 
+class ObserveTimeout(KeyboardInterrupt):
+    pass
+
+
+OBSERVE_TIMEOUT_S = 30
+
+
+def _raise_observe_timeout(sig, frm):
+    raise ObserveTimeout()
+
+
 class MachineryError(RuntimeError):
     """TLC crashed / output unparsable / record counts do not add up: never a verdict on the code."""
 
@@ -116,14 +127,31 @@ class Impl:
 
     def parse(self, text):
         self.calls = 0
+        import signal
+        armed = False
+        try:
+            if signal.getitimer(signal.ITIMER_REAL)[0] == 0:       # (not inside _guarded_observe)
+                signal.signal(signal.SIGALRM, _raise_observe_timeout)
+                signal.setitimer(signal.ITIMER_REAL, OBSERVE_TIMEOUT_S)
+                armed = True
+        except ValueError:                                       # not the main thread
+            pass
         try:
             tree = self.parser.parse(text)
             obs = {'ok': True, 'tree': tree_to_json(tree)}
+        except ObserveTimeout:
+            if not armed:
+                raise
+            obs = {'ok': False, 'class': 'BaseException:Timeout', 'msg': 'no result within %d s' % OBSERVE_TIMEOUT_S, 'kind': 'other',
+                   'text': [], 'line': 0, 'ch': 0}
         except KeyboardInterrupt:
             raise
         except BaseException as e:       # noqa
             obs = self.classify(e)
             obs['ok'] = False
+        finally:
+            if armed:
+                signal.setitimer(signal.ITIMER_REAL, 0)
         obs['look'] = self.calls
         obs['residue'] = self.residue()
         return obs
@@ -1275,11 +1303,32 @@ def generate_cases(tier, seed, kinds=('sentence', 'mutation', 'tests', 'soup', '
 
 # ============================================================================== direction B: record + validate
 
+def _guarded_observe(im, text):
+    """im.observe under a wall-clock guard: lexing / parsing a short text takes microseconds; a change that makes the lexer or
+    the parser loop must not hang the check - it is recorded as an observation that matches nothing the specification allows."""
+    import signal
+
+    def on_alarm(sig, frm):
+        raise ObserveTimeout()
+    old = signal.signal(signal.SIGALRM, on_alarm)
+    signal.setitimer(signal.ITIMER_REAL, OBSERVE_TIMEOUT_S)
+    try:
+        return im.observe(text)
+    except ObserveTimeout:
+        res = {'pos': 0, 'lineno': 0, 'paren': 0}
+        return {'chars': cps(text), 'toks': [], 'lexerr': {'t': 'exception:Timeout', 'ch': 0, 'pos': 0}, 'lexres': res, 'names': [], 'nameserr': 2,
+                'parse': {'ok': False, 'class': 'BaseException:Timeout', 'msg': 'no result within %d s' % OBSERVE_TIMEOUT_S, 'kind': 'other',
+                          'text': [], 'line': 0, 'ch': 0, 'look': 0, 'residue': res}}
+    finally:
+        signal.setitimer(signal.ITIMER_REAL, 0)
+        signal.signal(signal.SIGALRM, old)
+
+
 def _worker_observe(cases):
     im = impl()
     out = []
     for c in cases:
-        rec = im.observe(c['text'])
+        rec = _guarded_observe(im, c['text'])
         if 'want' in c:
             rec['want'] = c['want']
         out.append(rec)
